@@ -13,6 +13,7 @@ package object
 //@ external bytes.Compare
 //@ modifies nothing
 //@ ensures oneof(result, -1, 0, 1)
+//@ ensures (result == 0) == (bytestr(a) == bytestr(b))
 
 //@ func (*Bool).Compare
 //@ props C15 C16
